@@ -98,12 +98,18 @@ func (g *Circle) Contains(obj Object) bool {
 		// centers plus other's radius does not exceed g's radius
 		return other.Distance(g)+other.meters <= g.meters
 	case Collection:
+		if obj.Empty() {
+			// nothing to contain
+			return false
+		}
 		for _, p := range other.Children() {
 			if !g.Contains(p) {
 				return false
 			}
 		}
 		return true
+	case *Feature:
+		return g.Contains(other.base)
 	default:
 		// No simple cases, so using polygon approximation.
 		return g.getObject().Contains(other)
